@@ -170,7 +170,7 @@ LEVEL_TEXT = ('Coq proof for the "all duration settings" half of the quantifier,
               'extracted from every generated library circuit and is part of the tie, so each passing case is a theorem instance over all settings '
               '(C10_holds_all_settings_partial), and the tie implies the judge (C10_tie_implies_spec).')
 LEVEL_NOTE = ('Partial: the "all constructor inputs" half (chain descriptions, layouts, cycle counts, initial states, calibration type) is covered by generation, not by proof - '
-              'no closed-form schedule of the constructors is derived, the certificate is computed per extracted graph. The supporting check LIBBUILD (run by this check, verdict reported here) models the constructors themselves as Gallina build programs tied node for node to the real constructors, and LibBuild_chain_no_overlap_partial proves the certificate for the PROGRAM rep_code_prog on a finite list of inputs (d=2 all data states, d=3 selected, 0..6 cycles), i.e. without extracting a graph from the implementation. The theorems are about Core/Model.v run on the '
+              'no closed-form schedule of the constructors is derived, the certificate is computed per extracted graph. The supporting check LIBBUILD (run by this check, verdict reported here) models the constructors themselves as Gallina build programs tied node for node to the real constructors, and LibBuild_chain_no_overlap_partial proves the certificate for the PROGRAM rep_code_prog on a finite list of inputs (d=2 all data states, d=3 selected, 0..6 cycles, plain and unrolled), i.e. without extracting a graph from the implementation; and, because neither the symbolic scheduler nor the certificate reads a repetition count (LibBuild_cert_ignores_reps) and every circuit with >= 4 cycles has the shape of the one with 4 (LibBuild_rep_code_cert_bulk), the circuit AS CONSTRUCTED is proved overlap-free and barrier-clear under every admissible setting for EVERY cycle count: chains d = 2, 3 with every state, d = 4 with full data states, all 82 layout sub-chains with one state each (LibBuild_chain2/3_no_overlap_plain_all_cycles, ..._partial). The unrolled circuit for every cycle count is not covered. The theorems are about Core/Model.v run on the '
               'structure extracted from the real circuit (true insertion order recorded by the driver); model and implementation are tied by exact equality of the reported '
               'listing (class, channels, start, end, length, tag) and duration under sampled settings (microwave > readout, all equal, 0.25, 2^15 included), plain and '
               'unrolled, and the implementation\'s listing is judged by spec_ok without the model. Hypotheses on settings: non-negative (the text says positive) and '
